@@ -1,3 +1,4 @@
+import os
 # fsgen.py — scenarios for the file-system properties (C06-C09) and their python-side specification
 from lib import *
 from hist import *
@@ -16,6 +17,11 @@ def tjoin(target, p):
     import posixpath
     t = clean_target(target)
     return posixpath.normpath(posixpath.join(t.decode("utf-8", "surrogateescape"), p.decode("utf-8", "surrogateescape"))).encode("utf-8", "surrogateescape")
+
+
+def inside(base, full):
+    """the harness materialises a pre-state entry only inside its private scratch directory"""
+    return os.path.normpath(full).startswith(os.path.normpath(base) + os.sep)
 
 
 def node_paths(items, exts):
